@@ -434,7 +434,7 @@ class Interp:
             r = self.loop_hook(self, node, env, "for")
             if r is not NotImplemented:
                 return
-        items = self.iter_list(self.eval(node.iter, env))
+        items = self.iter_lazy(self.eval(node.iter, env))
         broke = False
         for x in items:
             self.assign(node.target, x, env)
@@ -882,7 +882,7 @@ class Interp:
                 r = self.loop_hook(self, g, e, "comp", it)
                 if r is not NotImplemented:
                     raise OutOfReach("comprehension cut point not supported in this position")
-            for x in self.iter_list(it):
+            for x in self.iter_lazy(it):
                 self.assign(g.target, x, e)
                 if all(self.truth(self.eval(c, e)) for c in g.ifs):
                     rec(i + 1, e)
@@ -1217,6 +1217,27 @@ class Interp:
             self.raise_("AttributeError", f"'{ops.type_name(obj)}' object has no attribute '{name}'")
 
     # ------------------------------------------------------------------ iteration
+    def iter_lazy(self, v):
+        """iterate; a range with symbolic bounds is unrolled by deciding `i < stop` on the path each round
+        (every path is finite because the budget of decisions is; no bound is assumed on the range itself)"""
+        if isinstance(v, self.lib.SymRange):
+            if not (isinstance(v.step, int) and v.step == 1):
+                raise OutOfReach("symbolic range with a step")
+            return self._sym_range(v)
+        return self.iter_list(v)
+
+    def _sym_range(self, v):
+        c = ctx()
+        k = 0
+        while True:
+            if k > 600:
+                raise OutOfReach("more than 600 iterations of a symbolic range")
+            cur = mk_int(T(v.start) + k)
+            if not c.branch(T(cur) < T(v.stop)):
+                return
+            yield cur
+            k += 1
+
     def iter_list(self, v):
         if isinstance(v, IGen):
             raise OutOfReach("draining an infinite generator")
